@@ -186,3 +186,95 @@ class CFG:
             if t['k'] == 'drop':
                 pass
         return mod
+
+
+    # ------------------------------------------------------------------------------------------------ liveness
+    def _uses_defs(self, bi):
+        """(use-before-def set, def set) of whole locals for one block; any projected or borrowed mention counts as a use"""
+        use, dfn = set(), set()
+
+        def use_place(p):
+            if p is None:
+                return
+            if p['l'] not in dfn:
+                use.add(p['l'])
+            for e in p['p']:
+                if isinstance(e, dict) and 'idx' in e and e['idx'] not in dfn:
+                    use.add(e['idx'])
+
+        def use_op(o):
+            if not isinstance(o, dict):
+                return
+            use_place(o.get('copy') or o.get('move'))
+
+        b = self.blocks[bi]
+        for s in b['stmts']:
+            if s['k'] == 'assign':
+                rv = s['rv']
+                k = rv['k']
+                if k in ('use', 'cast', 'un', 'repeat'):
+                    use_op(rv['o'])
+                elif k == 'bin':
+                    use_op(rv['a'])
+                    use_op(rv['b'])
+                elif k == 'agg':
+                    for o in rv['ops']:
+                        use_op(o)
+                elif k in ('ref', 'rawptr', 'discr', 'len', 'copyforderef'):
+                    use_place(rv.get('p'))
+                else:
+                    for v in rv.values():
+                        if isinstance(v, dict) and 'l' in v and 'p' in v:
+                            use_place(v)
+                        elif isinstance(v, dict):
+                            use_op(v)
+                lhs = s['lhs']
+                if lhs['p']:
+                    use_place(lhs)
+                else:
+                    dfn.add(lhs['l'])
+            elif s['k'] == 'setdiscr':
+                use_place(s['lhs'])
+        t = b['term']
+        k = t['k']
+        if k == 'switch':
+            use_op(t['d'])
+        elif k == 'assert':
+            use_op(t['c'])
+        elif k == 'call':
+            for a in t['args']:
+                use_op(a)
+            if 'fop' in t:
+                use_op(t['fop'])
+            d = t['dest']
+            if d['p']:
+                use_place(d)
+            else:
+                dfn.add(d['l'])
+        elif k == 'drop':
+            pass
+        elif k == 'return':
+            if 0 not in dfn:
+                use.add(0)
+        return use, dfn
+
+    def liveness(self):
+        """live-in sets per block (backward dataflow over the non-cleanup CFG)"""
+        if getattr(self, '_live', None) is not None:
+            return self._live
+        ud = {b: self._uses_defs(b) for b in self.reach}
+        live_in = {b: set() for b in self.reach}
+        changed = True
+        while changed:
+            changed = False
+            for b in sorted(self.reach, reverse=True):
+                out = set()
+                for sc in self.succ[b]:
+                    out |= live_in.get(sc, set())
+                use, dfn = ud[b]
+                new = use | (out - dfn)
+                if new != live_in[b]:
+                    live_in[b] = new
+                    changed = True
+        self._live = live_in
+        return live_in
